@@ -119,7 +119,7 @@ def _expand_inner(ci, history, pre, part=None):
         key = None
         if T.post is not None:
             viols += check.transition(T, counters)
-            if not check.is_probe(op):
+            if not check.is_probe(op, cfg):
                 key = canon.state_key(w, T.post, T.post_bytes)
         w.close()
         out.append((op, T.outcome, key, T.post, viols))
